@@ -35,6 +35,8 @@ enum Op {
     Install { n: u8 },
     /// election timer fires on the async path while the transport refuses the broadcast
     ElectAsyncSendFails,
+    /// a pre-vote round is started and answered by a PreVoteResponse carrying a higher term
+    PreVoteHigherTerm,
     /// log compaction: truncate_log under a snapshot that covers all but the last entry (no trailing logs kept)
     Compact,
 }
@@ -246,6 +248,11 @@ impl Subject for RaftSubject {
                     }
                 }
             }
+            Op::PreVoteHigherTerm => {
+                node.start_pre_vote();
+                node.handle_message(&"n3".to_string(), &Message::PreVoteResponse(tensor_chain::network::PreVoteResponse { term: node.current_term() + 1, vote_granted: false, voter_id: "n3".into() }));
+                m.term = m.term.max(node.current_term());
+            }
             Op::Compact => {
                 let log = node_log(node);
                 if log.len() >= 2 {
@@ -323,6 +330,7 @@ fn alphabet(level: u8) -> Vec<Op> {
             Op::Elect,
             Op::ElectAsyncSendFails,
             Op::Install { n: 1 },
+            Op::PreVoteHigherTerm,
         ],
         // full
         _ => vec![
@@ -342,6 +350,7 @@ fn alphabet(level: u8) -> Vec<Op> {
             Op::Install { n: 0 },
             Op::Install { n: 2 },
             Op::Compact,
+            Op::PreVoteHigherTerm,
         ],
     }
 }
@@ -395,7 +404,7 @@ fn main() {
     }
     let mut rep = Report::new("C10", "fault_enumeration");
     let thorough = rep.thorough();
-    rep.rule("histories: all sequences (quick <=3, thorough <=4) of {RequestVote from 2 candidates at term/term+1 with fresh/stale log, AppendEntries with 0-2 entries / higher term / conflicting suffix, election timeout, winning vote, ack, propose, higher-term response, snapshot install (snapshot produced by a real leader node), async election with a transport that refuses the broadcast, log compaction (truncate_log, no trailing entries kept; the log is compared by absolute position)} on a real RaftNode::with_wal; crash images: every I/O-op boundary and every byte cut of every WAL write; epochs 2-3 continue on the node restarted from every distinct (thorough) / landmark (quick) image. non-trivial = torn image");
+    rep.rule("histories: all sequences (quick <=3, thorough <=4) of {RequestVote from 2 candidates at term/term+1 with fresh/stale log, AppendEntries with 0-2 entries / higher term / conflicting suffix, election timeout, winning vote, ack, propose, higher-term response, snapshot install (snapshot produced by a real leader node), async election with a transport that refuses the broadcast, a pre-vote round answered with a higher term, log compaction (truncate_log, no trailing entries kept; the log is compared by absolute position)} on a real RaftNode::with_wal; crash images: every I/O-op boundary and every byte cut of every WAL write; epochs 2-3 continue on the node restarted from every distinct (thorough) / landmark (quick) image. non-trivial = torn image");
     rep.assume("crash model: prefix persistence; the Raft WAL fsyncs every record, so acknowledged = call returned");
     rep.assume("promises are read from the real node's answers (RequestVoteResponse.vote_granted, AppendEntriesResponse.success, propose Ok)");
     let results: Vec<Stats> = par::spawn_workers(par::worker_count(), &[]);
